@@ -102,7 +102,13 @@ def h_fault(ctx, mods, shape):
                 state['eof'] = False
         return None
 
-    w = World(ctx, mods, st.dev, impl=impl, default_timeout=1, fault=fault, budget=3000)
+    def frag(n, avail, idx):
+        # the read just before the faulted call delivers a single byte: the fault then hits in the middle of a header/payload
+        if shape.get('partial_before') and w.wire.calls - 1 == f - 1 and min(n, avail) > 1:
+            return 1
+        return min(n, avail)
+
+    w = World(ctx, mods, st.dev, impl=impl, default_timeout=1, fault=fault, budget=3000, frag=frag if shape.get('partial_before') else None)
     if shape.get('preload'):
         pass
     scenario = shape.get('scenario')
@@ -127,9 +133,10 @@ def h_fault(ctx, mods, shape):
     # 3. close() completes
     state['armed'] = False
     state['eof'] = False
-    o = w.try_call('close')
-    ctx.check(o.ok, 'close() completes after a transport failure', detail=repr(o.exc) if not o.ok else None)
-    ctx.check(w.dev.available is False, 'the device is not available after close()')
+    if not shape.get('noclose'):
+        o = w.try_call('close')
+        ctx.check(o.ok, 'close() completes after a transport failure', detail=repr(o.exc) if not o.ok else None)
+        ctx.check(w.dev.available is False, 'the device is not available after close()')
     # 4. reconnect to a healthy device and replay the scenario with fresh payloads
     st2 = Std(ctx, sym_rid=True, packetize=_packetize)
     w.wire.device = st2.dev
@@ -216,6 +223,9 @@ def shapes(tier, seed):
                 out.append({'h': 'fault', 'impl': impl, 'kind': kind, 'range': [lo, min(n, lo + step)]})
                 if not q:
                     out.append({'h': 'fault', 'impl': impl, 'kind': kind, 'range': [lo, min(n, lo + step)], 'second_within': 6})
+            # the fault hits in the middle of a header / payload (the previous read returned a single byte); with and without close()
+            for lo in range(2, n, 6):
+                out.append({'h': 'fault', 'impl': impl, 'kind': kind, 'range': [lo, min(n, lo + 2)], 'partial_before': True, 'noclose': (lo // 6) % 2 == 0})
             # stale packets of the broken session arrive on the new connection
             for lo in range(8, n, 24):
                 out.append({'h': 'fault', 'impl': impl, 'kind': kind, 'range': [lo, min(n, lo + 4)], 'stale': True})
